@@ -136,8 +136,10 @@ def apply_op(sheet, op):
             mr = model_rule(code, sheet, as_text)
             rule = rule_text(code) if as_text else make_obj(code, sheet)
             mop = 'i.%s.%s.%d' % (mr, 'n' if idx is None else (99 if idx < 0 else idx), 1 if inorder else 0)
-            if inorder:
+            if inorder and idx is None:
                 r = sheet.add(rule)
+            elif inorder:
+                r = sheet.insertRule(rule, idx, inOrder=True)      # (the index is documented to be ignored)
             elif idx is None:
                 r = sheet.insertRule(rule)
             else:
@@ -328,6 +330,8 @@ def all_ops(maxlen):
     for code in RULES:
         for idx in list(range(0, maxlen + 1)) + [None]:
             ops.append(('ins', code, idx, False, True))
+            if idx == 0:
+                ops.append(('ins', code, idx, True, False))       # in-order with an explicit index
         ops.append(('ins', code, None, True, False))
     for i in range(-maxlen, maxlen):
         ops.append(('del', i))
@@ -362,7 +366,7 @@ def gen_cases(tier, seed):
             if r < 0.55:
                 code = rnd.choice(big_rules)
                 inorder = rnd.random() < 0.4
-                idx = None if (inorder or rnd.random() < 0.2) else rnd.randint(-1, 7)
+                idx = None if ((inorder and rnd.random() < 0.5) or rnd.random() < 0.2) else rnd.randint(-1, 7)
                 h.append(('ins', code, idx, inorder, rnd.random() < 0.5))
             elif r < 0.7:
                 h.append(('del', rnd.randint(-7, 7)))
